@@ -25,7 +25,7 @@ func (w *Worker) recordAssert(s *State, label, cond, note string) {
 	e.mu.Lock()
 	confirmed := e.cexCount[label]
 	e.mu.Unlock()
-	if confirmed >= 1 {
+	if confirmed >= cexPerLabel {
 		if w.S.Feasible(s.Decls, s.PC, neg) {
 			res.Res = "sat"
 		} else {
@@ -64,7 +64,7 @@ func (w *Worker) buildCex(s *State, label, neg, note string) *Cex {
 	for _, n := range s.Nondet {
 		if n.Kind == "chars" {
 			terms = append(terms, n.Aux...)
-		} else if n.Kind != "choice" {
+		} else if n.Kind != "choice" && n.Kind != "label" {
 			terms = append(terms, n.Term)
 		}
 	}
@@ -165,6 +165,8 @@ func (w *Worker) buildCex(s *State, label, neg, note string) *Cex {
 	}
 	for _, n := range s.Nondet {
 		switch n.Kind {
+		case "label":
+			cx.Values[n.Key] = n.Term
 		case "choice":
 			var k int64
 			fmt.Sscan(n.Term, &k)
